@@ -394,6 +394,15 @@ def run_check(prop_id: str, tier: str, *, base_seed: int | None = None, budget_s
             rc = 2
             lines.append(f"HARNESS-TIMEOUT property={prop_id} runs_timed_out={agg['timeouts']} seeds={agg.get('timeout_seeds', [])[:5]}")
 
+        # Violations are reported even when the determinism probe disagreed: outcomes that differ
+        # between hash seeds are what a hash-order dependence of the *library* looks like (the
+        # harness itself is shown hash-independent on the unchanged tree by the self-test), and the
+        # violation found under one of the seeds is the useful report.  A harness error or timeout
+        # still wins (nothing is believed then).
+        harness_rc = rc
+        only_nondeterminism = bool(agg["selftest_mismatch"]) and not agg["harness_errors"] and not (agg["timeouts"] and not getattr(prop, "TIMEOUT_IS_VERDICT", False))
+        if only_nondeterminism:
+            rc = 0
         minimised = []
         if violations and rc == 0:
             sx_cache: dict[str, SyncExec] = {}
@@ -453,6 +462,8 @@ def run_check(prop_id: str, tier: str, *, base_seed: int | None = None, budget_s
                 for s in sx_cache.values():
                     s.close()
 
+        if only_nondeterminism and rc == 0:
+            rc = harness_rc  # no violation to show for it: the disagreement itself is the (exit 2) result
         # known findings: replay each committed one; print a line while it still reproduces
         known_lines = []
         for f in findings.get("findings", ()):
